@@ -139,11 +139,22 @@ def compare_guards(rep, R, site, k, got_it, want_it, what):
             ok = False
             near = [g for g in got if g[1] == wh]
             why = f"no guard raising on {show(wc, 200)}"
+            structural = False
             if near:
                 cands = [g for g in near if not any(equal(g[0], w2[0]) for w2 in want)]
                 if cands:
                     why += f"; closest existing guard tests {show(cands[0][0], 240)} ({explain(cands[0][0], wc)})"
-            rep.violated(R, site, kk, f"{what}: {why}")
+                    from .c07 import structural_difference
+                    try:
+                        structural = structural_difference(cands[0][0], wc)
+                    except Exception:  # noqa: BLE001
+                        structural = False
+            if structural:
+                # the same exception is raised on a test computed by a different control / data structure: the two
+                # conditions cannot be related by the canonical forms (not a finding)
+                rep.undecided(R, site, kk, f"{what}: {why}")
+            else:
+                rep.violated(R, site, kk, f"{what}: {why}")
         else:
             rep.holds(R, site, kk, f"raises {show(match[0][1], 40)}")
     return ok
